@@ -355,6 +355,8 @@ def facts_of(I, dps):
             idx = loop_index(order, l["loop"])
             for var, rec in l["vars"].items():
                 st = rec["stride"]
+                if l["exit"] in ("raise", "return", "break"):
+                    continue
                 if st[0] == "const":
                     facts.add(("stride", idx, ("const", st[1])))
                 elif st[0] == "expr":
